@@ -1,4 +1,5 @@
 import Norad.Lemmas.C10
+import Norad.Lemmas.Plist
 /-!
 # C10 — loading and saving are deterministic (the kerning / feature upconversion part)
 
@@ -122,14 +123,77 @@ theorem features_with_order_list (ko ko' : List Str) (classes : Option Str) (ord
 example : featuresText none none (some [("liga".toList, "L".toList), ("kern".toList, "K".toList)])
     = "\nKL".toList := by decide
 
-/-! OPEN (not proved, observed by the harness oracle `sorted=1` on every saved tree):
-
-  theorem written_plists_sorted : every dictionary norad writes (lib.plist, layerinfo.plist, glyph libs:
-    `recursive_sort_plist_keys`, util.rs:11-18; groups.plist, kerning.plist, contents.plist: `BTreeMap`)
-    has ascending keys, recursively through dictionaries (dictionaries inside arrays keep insertion
-    order, which is a function of the value).  Needs a nested plist-value model.
-
-  theorem store_save_order_independent : the data/images stores are `HashMap`s iterated at save time;
-    writes to pairwise different files commute (needs the abstract FS of C16/C09). -/
-
 end Kern
+
+/-! ## what is written: sorted dictionaries (`recursive_sort_plist_keys`, util.rs:11-18) -/
+namespace PlistM
+open StrMap
+
+/-- **written_plists_sorted**: after `recursive_sort_plist_keys` every dictionary that is reachable
+    from the lib through dictionary values only has strictly ascending keys (Rust `str` order).
+    Exactly that and no more: `SortedReach` is `True` of an array — the function does not visit arrays
+    (`arrays_not_visited`).  groups.plist, kerning.plist and contents.plist are written from `BTreeMap`s
+    (sorted by construction; observed by the harness oracle `sorted=1`). -/
+theorem written_plists_sorted (v : PV) (h : WF v) : SortedReach (sortRec v) :=
+  sortRec_sortedReach v h
+
+/-- **arrays_not_visited**: an array value — with every dictionary inside it — is written as it is. -/
+theorem arrays_not_visited (k : Str) (xs : List PV) :
+    sortRec (.arr xs) = .arr xs ∧ sortRec (.dict [(k, .arr xs)]) = .dict [(k, .arr xs)] :=
+  ⟨rfl, rfl⟩
+
+/-- **written_lib_function_of_map**: the written lib is a function of the lib *as a map* at every
+    level the sort reaches: two libs that differ only in the insertion order of their dictionaries
+    (`Reorder`: at the top and recursively in dictionary values; scalars and arrays identical) are
+    written identically — same keys in the same order at every depth. -/
+theorem written_lib_function_of_map {v v' : PV} (h : Reorder v v') (hw : WF v) :
+    sortRec v = sortRec v' ∧ writtenKeys (sortRec v) = writtenKeys (sortRec v') := by
+  have := sortRec_reorder h hw
+  exact ⟨this, by rw [this]⟩
+
+def libA : PV := .dict [("a".toList, .arr [.dict [("y".toList, .int 1), ("x".toList, .int 2)]])]
+def libB : PV := .dict [("a".toList, .arr [.dict [("x".toList, .int 2), ("y".toList, .int 1)]])]
+
+/-- **written_lib_equal_fonts_counterexample** (the full statement "equal fonts are written
+    identically" is FALSE on the tree; finding `dict-inside-array-keeps-insertion-order`): the two libs
+    compare equal (`plist::Value::eq` ignores insertion order at every depth) but are written with
+    different key orders, because the dictionary sits inside an array. -/
+theorem written_lib_equal_fonts_counterexample :
+    pvEq libA libB = true ∧ writtenKeys (sortRec libA) ≠ writtenKeys (sortRec libB) := by
+  decide
+
+/-- non-vacuity of `written_lib_function_of_map`: a nested dictionary reordered at two levels -/
+example : Reorder
+    (.dict [("z".toList, .dict [("b".toList, .int 1), ("a".toList, .int 2)]), ("k".toList, .int 0)])
+    (.dict [("k".toList, .int 0), ("z".toList, .dict [("a".toList, .int 2), ("b".toList, .int 1)])]) :=
+  .dict (es' := [("z".toList, .dict [("a".toList, .int 2), ("b".toList, .int 1)]), ("k".toList, .int 0)])
+    (.cons (.dict (es' := [("b".toList, .int 1), ("a".toList, .int 2)])
+        (.cons (.refl _) (.cons (.refl _) .nil)) (List.Perm.swap _ _ _))
+      (.cons (.refl _) .nil))
+    (List.Perm.swap _ _ _)
+
+example : writtenKeys (sortRec
+    (.dict [("z".toList, .dict [("b".toList, .int 1), ("a".toList, .int 2)]), ("k".toList, .int 0)])) =
+    ["k".toList, "z".toList, "a".toList, "b".toList] := by decide
+
+/-! ## stores are written in hash order (`font.rs:526-553`) -/
+
+/-- **store_save_order_independent** (guard: the keys resolve to pairwise different files; that they
+    are also not nested — no key a directory of another — is what makes every single write succeed and
+    is enforced by the store on insert): the files written do not depend on the order in which the
+    `HashMap` yields the entries. -/
+theorem store_save_order_independent {l l' : List (Str × Str)} (hp : l.Perm l')
+    (hn : (l.map (fun e => normKey e.1)).Nodup) (fs : Files) : writeAll l fs = writeAll l' fs :=
+  writeAll_perm hp hn fs
+
+/-- **store_save_order_dependent_counterexample** (the unguarded statement is FALSE on the tree; finding
+    `store-alias-keys-written-in-hash-order`): `n.txt` and `./n.txt` are different keys of the store
+    but the same file; the two iteration orders leave different contents in it. -/
+theorem store_save_order_dependent_counterexample :
+    writeAll [("n.txt".toList, "0".toList), ("./n.txt".toList, "1".toList)] (fun _ => none) ["n.txt".toList] ≠
+    writeAll [("./n.txt".toList, "1".toList), ("n.txt".toList, "0".toList)] (fun _ => none) ["n.txt".toList] := by
+  decide
+
+example : (["a.txt".toList, "b/c.txt".toList].map normKey).Nodup := by decide
+
+end PlistM
